@@ -115,6 +115,8 @@ HOLES = [
     ('\\\n', 'x\n'), ('for x in y:', ' pass\n'), ('lambda ', ': 0\n'), ('x = {', ': 1}\n'),
     ('def f(a, ', '/, b): pass\n'), ('async ', 'def f(): await x\n'), (BOM, 'x = 1\n'), ('if x:\n  y\n ', 'z\n'),
     ('x = f(a', 'b)\n'), ('x = 0', '1\n'), ('f"{x:', '}" \n'), ('x\n', ''),
+    ('x = a', '\n'), ('f"{f\'', ''), ("x = b", "'abc\\\ndef'\n"), ('foo bar\nx = ', '\n'), ('if x:\r\\', 'y\r'),
+    ('x = 1\n\\', ''), ('a = 1\n', '\nb = 2\n'), ('if x:\n', ' c\ny\n'), ('def f():', ''), ('x = (', '\ndef g(): pass\n'),
 ]
 
 
@@ -177,8 +179,16 @@ SKELS = [
     ['@', 'd', '\n', 'async', ' def', ' f', '(', ')', ':', '\n', '  ', 'await', ' x', '\n'],
     ['x', ' =', ' a', ' if', ' b', ' else', ' lambda', ' c', ':', ' d', '\n'],
     ['a', ',', ' *', 'b', ' =', ' c', '\n', 'del', ' a', '[', '0', ']', '\n'],
+    ['def', ' f', '[', 'T', ',', ' U', ']', '(', 'a', ',', ' b', '=', '1', ',', ' *', 'c', ')', ':', ' pass', '\n'],
+    ['def', ' f', '(', 'a', ',', ' /', ',', ' b', ',', ' *', ',', ' c', ')', ':', ' pass', '\n', 'lambda', ' *', ',', ' a', ':', ' a', '\n'],
+    ['def', ' f', '(', ')', ':'],
+    ['if', ' a', ':', '\n', '  ', 'b', '\n', 'else', ':'],
+    ['if', ' x', ':', '\n', '# c\n', 'y', '\n'],
+    ['def', ' a', '(', ')', ':', ' pass', '\n', '\n', '# c\n', 'def', ' b', '(', ')', ':', ' pass', '\n'],
+    ['x', ' =', ' 1', '  ', '# done'],
+    ['\ufeff', 'x', ' =', ' (', '1', ',', '\n', ' 2', ')', '\n', '\n', '\n', '\n', 'y', '=', '1'],
 ]
-_EXTRA = ['a', '1', "'s'", '$', '\n', '\n    ', '\n  ', 'f"', '"', "'", '"""', '\\\n', '#c\n', '?', '1.', '0x', 'é', '²']
+_EXTRA = ['', 'a', '1', "'s'", '$', '\n', '\n    ', '\n  ', 'f"', '"', "'", '"""', '\\\n', '#c\n', '?', '1.', '0x', 'é', '²']
 
 
 def labels(vi):
@@ -204,6 +214,8 @@ def _label_native(k, pos, j, replace, vi):
     parts = list(SKELS[k])
     lab = L[j]
     tok = (' ' + lab) if lab.strip() and not lab.startswith('\n') else lab
+    if lab == '' and replace:
+        return True
     if replace and pos < len(parts):
         parts[pos] = tok
     else:
@@ -351,3 +363,75 @@ def pipe_spell2(k: int, c1: int, c2: int, vi: int) -> bool:
 def pipe_spell2_known(k, c1, c2, vi):
     pipe_spell2(k, c1, c2, vi)
     return LAST_KNOWN
+
+
+# -------------------------------------------------------------------------------------------------
+# bytes input (C01): parse(bytes) returns exactly the decoded text (a UTF-8 BOM is kept as U+FEFF)
+BYTES = [b'x = 1\n', b'# c\nx = "\xc3\xa9"\n', b'def f():\n  pass\n', b'']
+
+
+def pipe_bytes(k: int, bom: bool, b1: int, at: int) -> bool:
+    """
+    require: 0 <= k < len(BYTES) and 0 <= b1 < 128 and 0 <= at <= 3
+    """
+    body = BYTES[k]
+    at = min(at, len(body))
+    data = (b'\xef\xbb\xbf' if bom else b'') + body[:at] + bytes([b1]) + body[at:]
+    if b'coding' in data:
+        return True
+    want = data.decode('utf-8')      # keeps the BOM as U+FEFF
+    g = grammar(4)
+    m = g.parse(data)
+    if m.get_code() != want:
+        return _no('parse(%r).get_code() = %r, decoded text is %r' % (data, m.get_code(), want))
+    r = TO.check_roundtrip(m, want) or TO.check_positions(m, want)
+    if r:
+        return _no('bytes input: ' + r)
+    return True
+
+
+# -------------------------------------------------------------------------------------------------
+# refactoring is an exact text splice (C19): concrete trees, symbolic replacement strings
+_RTEXTS = ['def f(a, b=1):\n    return a + b  # c\n', 'x = [1,\n 2]\nclass C: pass\n', 'if x:\n  y = f"{a!r}"\nelse: $\n']
+_RTREES = [grammar(4).parse(t) for t in _RTEXTS]
+_RNODES = [TO.nodes(m) for m in _RTREES]
+
+
+def pipe_refactor(t: int, i: int, j: int, c1: int, c2: int, n2: int) -> bool:
+    """
+    require: 0 <= t < len(_RTEXTS) and 0 <= i < 64 and 0 <= j < 64 and 0 <= n2 <= 1
+    require: 0 <= c1 < 0x110000 and 0 <= c2 < 0x110000 and not (0xD800 <= c1 <= 0xDFFF) and not (0xD800 <= c2 <= 0xDFFF)
+    """
+    N = _RNODES[t]
+    if i >= len(N) or j >= len(N):
+        return True
+    a, b = N[i], N[j]
+    text = _RTEXTS[t]
+    g = grammar(4)
+    ls = TO.leaves(_RTREES[t])
+    off = {}
+    o = 0
+    for l in ls:
+        off[id(l)] = (o, o + len(l.prefix) + len(l.value))
+        o += len(l.prefix) + len(l.value)
+    sa = (off[id(a.get_first_leaf())][0], off[id(a.get_last_leaf())][1])
+    sb = (off[id(b.get_first_leaf())][0], off[id(b.get_last_leaf())][1])
+    r1 = chr(c1)
+    r2 = chr(c2) if n2 else ''
+    def inside(x, y):
+        while x is not None:
+            if x is y:
+                return True
+            x = x.parent
+        return False
+    if sa[1] <= sb[0] and not inside(a, b) and not inside(b, a):      # disjoint, a before b: both replaced
+        want = text[:sa[0]] + r1 + text[sa[1]:sb[0]] + r2 + text[sb[1]:]
+        got = g.refactor(_RTREES[t], {a: r1, b: r2})
+    else:
+        want = text[:sa[0]] + r1 + text[sa[1]:]
+        got = g.refactor(_RTREES[t], {a: r1})
+    if got != want:
+        return _no('c19: refactor gives %r, exact splice is %r' % (got, want))
+    if g.refactor(_RTREES[t], {}) != text:
+        return _no('c19: refactor with an empty map changed the code')
+    return True
